@@ -12,8 +12,8 @@ Open Scope N_scope.
 (* ---- strings.Split(s, sep) for a one-byte separator: always n+1 fields *)
 Fixpoint split_acc (sep : N) (s : bytes) (cur : bytes) : list bytes :=
   match s with
-  | [] => [rev cur]
-  | c :: r => if N.eqb c sep then rev cur :: split_acc sep r [] else split_acc sep r (c :: cur)
+  | [] => [frev cur]
+  | c :: r => if N.eqb c sep then frev cur :: split_acc sep r [] else split_acc sep r (c :: cur)
   end.
 Definition split (sep : N) (s : bytes) : list bytes := split_acc sep s [].
 
@@ -79,7 +79,7 @@ Fixpoint trim_right_rev_fuel (fuel : nat) (s : bytes) : bytes :=
            end
   end.
 Definition trim_right (s : bytes) : bytes :=
-  rev (trim_right_rev_fuel (List.length s) (rev s)).
+  frev (trim_right_rev_fuel (List.length s) (frev s)).
 
 Definition trim_space (s : bytes) : bytes := trim_right (trim_left s).
 
